@@ -131,3 +131,12 @@ CLAIMS["C08"] = (
     "and multiple non-greedy finishes refused; priorities are recorded per clause for every pattern; finish states are linked to their clause's body/actions. "
     "It does not decide that the parallel merge tracks each pattern correctly.",
     "Trusted: shape recognisers over ~15 statements of CaseNode.convert. Not decided: correctness of _merge's superstate construction and finish bookkeeping.")
+CLAIMS["C04"] = (
+    "must-pass-through / refusal-guard / statement-order rules in the compiler + emission-path rule that every non-consuming goto follows a state store",
+    "Static, necessary conditions only: acyclicity of the non-consuming moves of each compiled machine is not decided. Decided: the fall-through cycle "
+    "check runs after optimisation on every normal path; structural refusals (empty bodies, ambiguous loop, unreachable code, empty optional) raise "
+    "diagnosed errors; a handler never handles its own body at conversion time and at parse time (save copy < extend < body < restore < catch block); the "
+    "cycle check follows condition points and treats only always-leaving actions as cycle breakers; every non-consuming goto in emitted C follows a state "
+    "store, so a C-level spin is a DFA-level fall-through cycle; a freeing delete resets its counter; the optimiser never merges across a yield's proxy. "
+    "Found and repaired F-04 (parser that spins forever).",
+    "Trusted: shape recognisers; the compiler's own cycle check for what it does follow. Not decided: cycles through MAY_GOTO_TARGET overrides, per-machine acyclicity.")
